@@ -31,6 +31,21 @@ type Case struct {
 	Order string        `json:"block_order"`
 	HW    int           `json:"pending_high_water"`
 	Ext   string        `json:"ext,omitempty"`
+	Tail  int           `json:"tail,omitempty"` // trailing bytes after the last block (stripped for the exact-length JPEG form)
+}
+
+// jpegExact carries the block, without its trailing bytes, in the APP1 segment of a
+// minimal fixed JPEG: the block's declared length then ends on the last byte of its last value.
+func jpegExact(p []byte, tail int) []byte {
+	if tail > 0 && tail < len(p) {
+		p = p[:len(p)-tail]
+	}
+	if len(p) > 65000 {
+		return nil
+	}
+	fixedTail := append([]byte{0xFF, 0xC0, 0x00, 0x0B, 0x08, 0x00, 0x10, 0x00, 0x10, 0x01, 0x01, 0x11, 0x00, 0xFF, 0xDA, 0x00, 0x08, 0x01, 0x01, 0x00, 0x00, 0x3F, 0x00}, bytes.Repeat([]byte{0x55}, 80)...)
+	fixedTail = append(fixedTail, 0xFF, 0xD9)
+	return gen.JPEGStream([]gen.Seg{{Marker: 0xE1, Payload: append([]byte(gen.ExifPrefix), p...)}, gen.DQT()}, fixedTail)
 }
 
 func decode(entry string, b []byte) (e exif2.Exif, err error, pan string) {
@@ -44,6 +59,8 @@ func decode(entry string, b []byte) (e exif2.Exif, err error, pan string) {
 		e, err = imagemeta.Decode(bytes.NewReader(b))
 	case "DecodeTiff":
 		e, err = imagemeta.DecodeTiff(bytes.NewReader(b))
+	case "DecodeJPEG":
+		e, err = imagemeta.DecodeJPEG(bytes.NewReader(b))
 	default:
 		e, err = exif2.Parse(bytes.NewReader(b))
 	}
@@ -51,12 +68,18 @@ func decode(entry string, b []byte) (e exif2.Exif, err error, pan string) {
 }
 
 func eval(c Case) *pbt.Fail {
-	for _, entry := range []string{"Decode", "ExifParse", "DecodeTiff"} {
+	for _, entry := range []string{"Decode", "ExifParse", "DecodeTiff", "DecodeJPEG"} {
 		for _, enc := range []struct {
 			name string
 			b    []byte
 		}{{"II", c.II}, {"MM", c.MM}} {
-			e, err, pan := decode(entry, enc.b)
+			in := enc.b
+			if entry == "DecodeJPEG" {
+				if in = jpegExact(enc.b, c.Tail); in == nil {
+					continue
+				}
+			}
+			e, err, pan := decode(entry, in)
 			key := c.Ext
 			if pan != "" {
 				return pbt.Failf(key, "%s(%s) panicked on a well-formed file: %s", entry, enc.name, pan)
@@ -68,6 +91,9 @@ func eval(c Case) *pbt.Fail {
 			wantType := imagetype.ImageTiff
 			if c.Rec.DNGVersion {
 				wantType = imagetype.ImageDNG
+			}
+			if entry == "DecodeJPEG" {
+				wantType = exifcheck.WantType("jpeg", c.Rec.DNGVersion)
 			}
 			if e.ImageType != wantType {
 				diffs = append(diffs, fmt.Sprintf("ImageType = %v, want %v", e.ImageType, wantType))
@@ -86,7 +112,7 @@ func genWith(o gen.Options, ext string) func(rt *rapid.T) Case {
 		if f.Enc.PendingHW > 84 {
 			panic(fmt.Sprintf("generator bug: pending high-water %d > 84", f.Enc.PendingHW))
 		}
-		c := Case{Rec: f.Rec, Ctx: exifcheck.CtxOf(f), II: f.Enc.II, MM: f.Enc.MM, Order: f.Enc.BlockOrder, HW: f.Enc.PendingHW, Ext: ext}
+		c := Case{Rec: f.Rec, Ctx: exifcheck.CtxOf(f), II: f.Enc.II, MM: f.Enc.MM, Order: f.Enc.BlockOrder, HW: f.Enc.PendingHW, Ext: ext, Tail: f.Enc.Tail}
 		cls := append([]string{}, f.Classes...)
 		if ext != "" {
 			cls = append(cls, "ext:"+ext)
@@ -113,7 +139,7 @@ func TestProp(t *testing.T) {
 	defer rec.MustWrite()
 	rec.Rule("logical record (random subset of the supported IFD0/Exif/GPS fields, in-range values, Appendix A) x forward layout " +
 		"(block order writer-like/LIFO/random/tables-first/values-first, padding, foreign tags of all 12 TIFF types, SubIFDs, IFD1, MakerNote blob, shuffled entry order, padded first-IFD offset, trailing bytes), " +
-		"both byte orders, decoded through imagemeta.Decode, imagemeta.DecodeTiff and exif2.Parse and compared field by field with the record. " +
+		"both byte orders, decoded through imagemeta.Decode, imagemeta.DecodeTiff, exif2.Parse and (the block without trailing bytes in an exact-length APP1 segment) imagemeta.DecodeJPEG, and compared field by field with the record. " +
 		"non-trivial = >= 5 supported fields and out-of-line values in >= 2 directories; distinct by encoded bytes")
 	rec.Assume("generated strings never end in space/newline/NUL (no trim rule assumed); no interior NULs")
 	rec.Assume("at most one serial-number source unless both are equal; CameraOwnerName only when Artist is absent; sub-second and offset tags only next to their date tag")
